@@ -46,8 +46,8 @@ Definition cname_l (p : bytes) (off : nat) (ls : list bytes) (e : nat) : Prop :=
 Definition cname (p : bytes) (off e : nat) : Prop := exists ls, cname_l p off ls e.
 
 (** wire form of a label list: each label prefixed by its length, then the root byte *)
-Definition wire_of_labels (ls : list bytes) : bytes :=
-  flat_map (fun l => N.of_nat (length l) :: l) ls ++ [0%N].
+Definition labels_flat (ls : list bytes) : bytes := flat_map (fun l => N.of_nat (length l) :: l) ls.
+Definition wire_of_labels (ls : list bytes) : bytes := labels_flat ls ++ [0%N].
 
 (** Pointer-free name with arbitrary label bytes (DNAME targets). *)
 Inductive plain_name_at (p : bytes) : nat -> nat -> nat -> Prop :=
